@@ -545,6 +545,11 @@ class Run:
             elif intent == 'status':
                 info = fut.result()
                 self.log.append(('rpc', 'status', info['state'].split('.')[-1], info['paused']))
+            elif not asyncio.isfuture(fut.result()) and not hasattr(fut.result(), 'add_done_callback'):
+                # answered on delivery instead of through an action scheduled on the loop: no counterpart in the specification,
+                # reported as what it is (a divergence of the event log and of the reply list, not a failure of the harness)
+                self.replies.append(fut.result())
+                self.log.append(('rpc', intent, 'immediate'))
             else:
                 self.replies.append(fut.result())
                 self.rpc_tramp.append(len(self.replies))
@@ -572,6 +577,8 @@ class Run:
     def reply_status(self, f):
         if f is None:
             return 'n/a'
+        if not hasattr(f, 'cancelled'):
+            return 'immediate:' + mval(f)
         if f.cancelled():
             return 'cancelled'
         if not f.done():
